@@ -662,7 +662,9 @@ impl CaseSpace for Values {
 
 struct IndexSets;
 
-const SETS: [&[u16]; 5] = [&[0], &[65535], &[0, 1, 2, 3, 4, 5, 6, 7, 8, 9], &[0, 2, 3, 7, 65535], &[254, 255, 256, 257]];
+/// the last set is answered in several fragments (transmit size 249 for it): a run of consecutive
+/// indices is cut wherever a fragment is full
+const SETS: [&[u16]; 6] = [&[0], &[65535], &[0, 1, 2, 3, 4, 5, 6, 7, 8, 9], &[0, 2, 3, 7, 65535], &[254, 255, 256, 257], &[0, 1, 2, 3, 4, 5, 6, 7, 8, 9, 10, 11, 12, 13, 14, 15, 16, 17, 18, 19, 20, 21, 22, 23, 24, 25, 26, 27, 28, 29, 30, 31, 32, 33, 34, 35, 36, 37, 38, 39, 40, 41, 42, 43, 44, 45, 46, 47, 48, 49, 50, 51, 52, 53, 54, 55, 56, 57, 58, 59]];
 
 impl CaseSpace for IndexSets {
     fn name(&self) -> String {
@@ -676,9 +678,9 @@ impl CaseSpace for IndexSets {
         let tys = [Ty::Binary, Ty::Double, Ty::BoStatus, Ty::Counter, Ty::Frozen, Ty::Analog, Ty::AoStatus];
         let ty = tys[index % 7];
         let set = SETS[(index / 7) % SETS.len()];
-        let s_var = if (index / 35) % 2 == 0 { ty.static_vars()[0] } else { *ty.static_vars().last().unwrap() };
+        let s_var = if (index / (7 * SETS.len())) % 2 == 0 { ty.static_vars()[0] } else { *ty.static_vars().last().unwrap() };
         res.obs = index as u64 + 424242;
-        let cfg = OCfg { event_buf: [0; 8], ..Default::default() };
+        let cfg = OCfg { event_buf: [0; 8], sol_tx: if set.len() > 10 { 249 } else { 2048 }, ..Default::default() };
         let mut sim = OSim::new(&cfg, 1);
         let mut cases = Vec::new();
         for (n, &i) in set.iter().enumerate() {
